@@ -163,4 +163,227 @@ theorem lexesTo_name {w r : Text} {cs : List TokClass} (hw : Spec.Lexical.isName
   | nil => simp [Spec.Lexical.isName] at hw
   | cons c t => simp; omega
 
+
+/-! ### quoted strings (the body lemma is the one of `Props/C03_strings.lean`, there private, with a rest) -/
+
+theorem hex_low (c : Nat) (h : c < 32) :
+    hex4 48 48 (hexDigitLower (c / 16)) (hexDigitLower (c % 16)) = some c := by
+  revert c; decide
+
+theorem quoted_simple :
+    quoted 34 = some 34 ∧ quoted 92 = some 92 ∧ quoted 110 = some 10 ∧ quoted 114 = some 13 ∧
+    quoted 116 = some 9 ∧ quoted 98 = some 8 ∧ quoted 102 = some 12 ∧ quoted 117 = none := by decide
+
+theorem readStringBody_jsonEscape (n : Nat) (v rest : Text) :
+    readStringBody n (jsonEscape v ++ 34 :: rest) = .ok (v, rest) := by
+  obtain ⟨q1, q2, q3, q4, q5, q6, q7, q8⟩ := quoted_simple
+  induction v with
+  | nil => rw [readStringBody.eq_def]; simp [jsonEscape]
+  | cons c t ih =>
+    simp only [jsonEscape, jsonEscapeChar]
+    split
+    · rename_i h; subst h; rw [readStringBody.eq_def]; simp [q1, ih]
+    split
+    · rename_i h; subst h; rw [readStringBody.eq_def]; simp [q2, ih]
+    split
+    · rename_i h; subst h; rw [readStringBody.eq_def]; simp [q3, ih]
+    split
+    · rename_i h; subst h; rw [readStringBody.eq_def]; simp [q4, ih]
+    split
+    · rename_i h; subst h; rw [readStringBody.eq_def]; simp [q5, ih]
+    split
+    · rename_i h; subst h; rw [readStringBody.eq_def]; simp [q6, ih]
+    split
+    · rename_i h; subst h; rw [readStringBody.eq_def]; simp [q7, ih]
+    split
+    · rename_i h; rw [readStringBody.eq_def]; simp [q8, hex_low c h, ih]
+    · rename_i h1 h2 h3 h4 h5 h6 h7 h8
+      have hp : isPrintable c = true := by simp [isPrintable]; omega
+      rw [readStringBody.eq_def]
+      simp [h1, h2, h3, h4, hp, ih]
+
+/-- the escaped body followed by the closing quote never starts with two quotes -/
+theorem jsonEscape_head (v : Text) (r : Text) (hr : Safe r) :
+    tq.isPrefixOf (34 :: (jsonEscape v ++ 34 :: r)) = false := by
+  cases v with
+  | nil =>
+    cases r with
+    | nil => simp [jsonEscape, tq, List.isPrefixOf]
+    | cons c t =>
+      have := (delim_facts c (hr c t rfl)).2.2.2.1
+      simp [jsonEscape, tq, List.isPrefixOf]; intro e; exact absurd e.symm this
+  | cons c t =>
+    simp only [jsonEscape, jsonEscapeChar]
+    repeat' split
+    all_goals simp [tq, List.isPrefixOf]
+    all_goals omega
+
+theorem next_string (n : Nat) (v r : Text) (hr : Safe r) :
+    next n (jsonDumps v ++ r) = .ok (⟨.string, posAt n (jsonDumps v ++ r), posAt n r, v⟩, some r) := by
+  have hb := readStringBody_jsonEscape n v r
+  have hq := jsonEscape_head v r hr
+  have e : jsonDumps v ++ r = 34 :: (jsonEscape v ++ 34 :: r) := by simp [jsonDumps]
+  rw [e]
+  have h1 : isIgnored 34 = false := by decide
+  have h3 : isPrintable 34 = true := by decide
+  have h4 : symbolKind 34 = none := by decide
+  simp [next, readOverWhitespace, h1, h3, h4, hq, readString, hb, Except.map]
+
+theorem lexesTo_string {v r : Text} {cs : List TokClass} (hr : Safe r) (h : LexesTo r cs) :
+    LexesTo (jsonDumps v ++ r) ((.string, v) :: cs) := by
+  refine lexesTo_step (fun n => ⟨_, next_string n v r hr, by simp [cls, hasValue]⟩) ?_ h
+  simp [jsonDumps]; omega
+
+/-! ### integers -/
+
+theorem safe_head_facts {r : Text} (hr : Safe r) :
+    (∀ c t, r = c :: t → isDigit c = false) ∧ (∀ c t, r = c :: t → c ≠ 46) ∧
+    (∀ c t, r = c :: t → ¬ (c = 101 ∨ c = 69)) ∧ (∀ c t, r = c :: t → isNameStart c = false) := by
+  refine ⟨fun c t e => (delim_facts c (hr c t e)).2.1, fun c t e => (delim_facts c (hr c t e)).2.2.1, ?_,
+    fun c t e => (delim_facts c (hr c t e)).2.2.2.2.1⟩
+  intro c t e h
+  have := delim_facts c (hr c t e)
+  rcases h with h | h
+  · exact this.2.2.2.2.2.1 h
+  · exact this.2.2.2.2.2.2 h
+
+/-- after the digits of a number, a rest that starts with a delimiter ends the number -/
+theorem number_tail (n : Nat) (r : Text) (hr : Safe r) :
+    readFraction n r = .ok (false, r) ∧ readExponent n r = .ok (false, r) ∧ numberLookahead n r = .ok () := by
+  obtain ⟨_, h2, h3, h4⟩ := safe_head_facts hr
+  cases r with
+  | nil => simp [readFraction, readExponent, numberLookahead]
+  | cons c t =>
+    have a := h2 c t rfl
+    have b := h3 c t rfl
+    have d := h4 c t rfl
+    simp [readFraction, readExponent, numberLookahead, a, b, d]
+
+
+theorem digit_facts (c : Nat) (h : c = 45 ∨ isDigit c = true) :
+    isIgnored c = false ∧ c ≠ 35 ∧ isPrintable c = true ∧ symbolKind c = none ∧ c ≠ 46 ∧ c ≠ 34 := by
+  have hlt : c < 128 := by
+    rcases h with h | h
+    · omega
+    · rw [isDigit_spec] at h; simp [Spec.Lexical.isDigit] at h; omega
+  have key : ∀ c, c < 128 → (c = 45 ∨ isDigit c = true) →
+      isIgnored c = false ∧ c ≠ 35 ∧ isPrintable c = true ∧ symbolKind c = none ∧ c ≠ 46 ∧ c ≠ 34 := by decide
+  exact key c hlt h
+
+/-- `__next__` dispatches a text starting with `-` or a digit to `_read_number` -/
+theorem next_number (n : Nat) (c : Nat) (t : Text) (h : c = 45 ∨ isDigit c = true) :
+    next n (c :: t) = (readNumber n (c :: t)).map (fun p => (p.1, some p.2)) := by
+  obtain ⟨f1, f2, f3, f4, f5, f6⟩ := digit_facts c h
+  have htq : tq.isPrefixOf (c :: t) = false := by
+    simp [tq, List.isPrefixOf]; intro e; exact absurd e.symm f6
+  simp [next, readOverWhitespace, f1, f2, f3, f4, f5, htq, f6]
+  intro a b
+  rcases h with h | h
+  · exact absurd h a
+  · rw [h] at b; cases b
+
+/-- `_read_over_integer` on an IntegerPart (without sign) followed by a non-digit -/
+theorem readOverInteger_ip (n : Nat) (d : Nat) (ds rest : Text)
+    (h : ((d == 48 && ds.isEmpty) || (Spec.Lexical.isNonZeroDigit d && ds.all Spec.Lexical.isDigit)) = true)
+    (hrest : ∀ c t, rest = c :: t → isDigit c = false) :
+    readOverInteger n (d :: ds ++ rest) = .ok rest := by
+  simp only [Bool.or_eq_true, Bool.and_eq_true, beq_iff_eq, List.isEmpty_iff, List.all_eq_true] at h
+  rcases h with ⟨rfl, rfl⟩ | ⟨hd, hds⟩
+  · cases rest with
+    | nil => simp [readOverInteger]
+    | cons c t => simp [readOverInteger, hrest c t rfl]
+  · have hne : d ≠ 48 := by simp [Spec.Lexical.isNonZeroDigit] at hd; omega
+    have hdig : isDigit d = true := by
+      rw [isDigit_spec]; simp [Spec.Lexical.isNonZeroDigit, Spec.Lexical.isDigit] at hd ⊢; omega
+    have hall : ∀ x ∈ ds, isDigit x = true := fun x hx => by rw [isDigit_spec]; exact hds x hx
+    have := (span_append isDigit ds rest hall hrest).2
+    simp [readOverInteger, hne, readOverDigits, hdig, this]
+
+theorem take_length_sub (w r : Text) : (w ++ r).take ((w ++ r).length - r.length) = w := by
+  simp
+
+theorem next_int (n : Nat) (w r : Text) (hw : Spec.Lexical.isIntValue w = true) (hr : Safe r) :
+    next n (w ++ r) = .ok (⟨.int, posAt n (w ++ r), posAt n r, w⟩, some r) := by
+  obtain ⟨t1, t2, t3⟩ := number_tail n r hr
+  have hdr := (safe_head_facts hr).1
+  simp only [Spec.Lexical.isIntValue, Spec.Lexical.isIntegerPart] at hw
+  have htake := take_length_sub w r
+  by_cases hneg : ∃ t, w = 45 :: t
+  · obtain ⟨t, rfl⟩ := hneg
+    simp only [Spec.Lexical.stripNegativeSign] at hw
+    cases t with
+    | nil => simp at hw
+    | cons d ds =>
+      simp only at hw
+      have hro := readOverInteger_ip n d ds r hw hdr
+      simp only [List.cons_append] at hro htake ⊢
+      rw [next_number n 45 _ (Or.inl rfl)]
+      simp only [readNumber, ↓reduceIte, hro, t1, t2, t3, bind, Except.bind, pure, Except.pure, Except.map,
+        Bool.or_self, Bool.false_eq_true]
+      rw [htake]
+  · cases w with
+    | nil => simp [Spec.Lexical.stripNegativeSign] at hw
+    | cons d ds =>
+      have hd45 : d ≠ 45 := fun e => hneg ⟨ds, by rw [e]⟩
+      have hs : Spec.Lexical.stripNegativeSign (d :: ds) = d :: ds := by
+        unfold Spec.Lexical.stripNegativeSign
+        split
+        · rename_i heq; simp at heq; exact absurd heq.1 hd45
+        · rfl
+      rw [hs] at hw
+      simp only at hw
+      have hro := readOverInteger_ip n d ds r hw hdr
+      have hdig : isDigit d = true := by
+        rw [isDigit_spec]
+        simp [Spec.Lexical.isNonZeroDigit, Spec.Lexical.isDigit] at hw ⊢
+        rcases hw with ⟨rfl, _⟩ | ⟨h, _⟩ <;> omega
+      simp only [List.cons_append] at hro htake ⊢
+      rw [next_number n d _ (Or.inr hdig)]
+      simp only [readNumber, hd45, ↓reduceIte, hro, t1, t2, t3, bind, Except.bind, pure, Except.pure, Except.map,
+        Bool.or_self, Bool.false_eq_true]
+      rw [htake]
+
+theorem lexesTo_int {w r : Text} {cs : List TokClass} (hw : Spec.Lexical.isIntValue w = true) (hr : Safe r)
+    (h : LexesTo r cs) : LexesTo (w ++ r) ((.int, w) :: cs) := by
+  refine lexesTo_step (fun n => ⟨_, next_int n w r hw hr, by simp [cls, hasValue]⟩) ?_ h
+  cases w with
+  | nil => simp [Spec.Lexical.isIntValue, Spec.Lexical.isIntegerPart, Spec.Lexical.stripNegativeSign] at hw
+  | cons c t => simp; omega
+
+
+/-! ### lexemes given by their behaviour (floats until `next_float`, block strings: string part of C03) -/
+
+/-- `w` followed by a delimiter is read as one Float token with value `w` -/
+def FloatLexeme (w : Text) : Prop :=
+  w ≠ [] ∧ ∀ n r, Safe r → next n (w ++ r) = .ok (⟨.float, posAt n (w ++ r), posAt n r, w⟩, some r)
+
+/-- the printed block string (value position, depth 0) followed by a delimiter is read as one BlockString token with
+    value `v` — the string-level statement `BlockRoundtripStatement` of `Props/C03_strings.lean` with a rest -/
+def BlockLexeme (ind v : Text) : Prop :=
+  ∀ n r, Safe r → next n (blockString v ind false ++ r) =
+    .ok (⟨.blockString, posAt n (blockString v ind false ++ r), posAt n r, v⟩, some r)
+
+theorem blockString_ne_nil (v ind : Text) (d : Bool) : blockString v ind d ≠ [] := by
+  unfold blockString
+  simp only
+  split
+  · split <;> simp
+  · split <;> simp
+
+theorem lexesTo_float {w r : Text} {cs : List TokClass} (hw : FloatLexeme w) (hr : Safe r)
+    (h : LexesTo r cs) : LexesTo (w ++ r) ((.float, w) :: cs) := by
+  refine lexesTo_step (fun n => ⟨_, hw.2 n r hr, by simp [cls, hasValue]⟩) ?_ h
+  have := hw.1
+  cases w with
+  | nil => exact absurd rfl this
+  | cons c t => simp; omega
+
+theorem lexesTo_block {ind v r : Text} {cs : List TokClass} (hw : BlockLexeme ind v) (hr : Safe r)
+    (h : LexesTo r cs) : LexesTo (blockString v ind false ++ r) ((.blockString, v) :: cs) := by
+  refine lexesTo_step (fun n => ⟨_, hw n r hr, by simp [cls, hasValue]⟩) ?_ h
+  have := blockString_ne_nil v ind false
+  cases hb : blockString v ind false with
+  | nil => exact absurd hb this
+  | cons c t => simp; omega
+
 end PyGql.PrintLex
